@@ -37,7 +37,8 @@ def _detail_diff(lib, ref, check_remaining):
     if check_remaining and "remaining" in ref and "remaining" not in fields:
         fields.append("remaining")
     for f in fields:
-        if f == "remaining" and not check_remaining:
+        if f == "remaining" and not check_remaining and ref["kind"] != "superfluous":
+            # the remaining bytes of a constraint error are C13's business; the surplus of a superfluous error is its substance
             continue
         if lib.get(f) != ref.get(f):
             return f
